@@ -3,7 +3,7 @@
      stream.go   newClientStreamWithParams (UseCompressor / WithCompressor -> grpc-encoding,
                  AcceptCompressors -> grpc-accept-encoding), csAttempt.recvMsg (choice of the
                  decompressor from the response's grpc-encoding, AcceptCompressors check),
-                 serverStream.SendMsg (SetSendCompressor pick-up)
+                 serverStream.SendMsg (SetSendCompressor pick-up, which also drops the legacy compressor)
      server.go   processRPC (decompressor / default send compressor, UNIMPLEMENTED),
                  SetSendCompressor / validateSendCompressor
      rpc_util.go compress (flag), checkRecvPayload
@@ -78,7 +78,8 @@ Definition server_send (reg : Z -> bool) (r : rpc) (rc : Z) : Z * Z * Z :=
   let '(v0, v1, name) := server_default reg r rc in
   if negb (setn r =? 0) && set_valid reg r (setn r) then
     if setn r =? name then (v0, v1, name)
-    else (v0, (if reg (setn r) then setn r else 0), setn r)   (* GetCompressor(new name) *)
+    else (0, (if reg (setn r) then setn r else 0), setn r)
+         (* the handler's choice drops the legacy compressor: V0 = nil, V1 = GetCompressor(name) *)
   else (v0, v1, name).
 
 (* compress uses the encoding.Compressor when there is one, else the legacy one *)
@@ -199,9 +200,10 @@ Fixpoint run (ops : list word) : option (list word) :=
       INTERNAL, the message is not delivered
    7  (statement deviation, finding class) an empty message under a non-identity
       grpc-encoding carries flag 1  -- the code sends it uncompressed, flag 0
-   8  (finding class) legacy RPCCompressor + SetSendCompressor("identity"): the response
-      header says identity but non-empty messages are still compressed by the legacy
-      compressor, flag 1
+   8  legacy RPCCompressor + SetSendCompressor("identity"): the response header says identity
+      and no response message is compressed (flag 0) -- the handler's choice overrides the
+      legacy compressor (repaired defect, /repo commit 6f92b96; kept as its own clause so
+      that a regression is reported under this id)
    9  (statement deviation, finding class) legacy RPCCompressor: the server compresses with
       it although the client neither advertised nor used it *)
 Fixpoint flag_rows (cl : Z) (enc : Z) (lens flags : list Z) (i : Z) : list (Z * Z * bool) :=
@@ -280,7 +282,7 @@ Fixpoint clauses (ops obs : list word) : list (Z * Z * bool) :=
   end.
 
 Definition is_finding_clause (c : Z * Z * bool) : bool :=
-  (fst (fst c) =? 7) || (fst (fst c) =? 8) || (fst (fst c) =? 9).
+  (fst (fst c) =? 7) || (fst (fst c) =? 9).
 Definition holds_b (ops obs : list word) : bool :=
   forallb (fun c => is_finding_clause c || snd c) (clauses ops obs).
 
